@@ -574,6 +574,8 @@ static int choose (bool cur_ok) {
 	// candidates other than cur
 	int oth[RT_MAXT]; int no = 0;
 	for (int i = 0; i < n; i++) if (en[i] != cur) oth[no++] = en[i];
+	// a thread that yields while nobody else can run is waiting for time to pass
+	if (!cur_ok && no == 0 && ck) return RT_CLOCK_ID;
 
 	switch (g_cfg.strategy) {
 	case RT_S_REPLAY:
@@ -658,7 +660,16 @@ static void reschedule (bool cur_ok) {
 	for (;;) {
 		if ((int64_t) g_st.steps >= g_cfg.step_budget) {
 			g_st.budget_exceeded = 1;
-			raise_verdict (RT_V_BUDGET, 0, "budget", "step budget exceeded");
+			{
+				char who[300]; size_t wl = 0; who[0] = 0;
+				for (int t = 1; t < RT_MAXT; t++) {
+					Fiber *f = &g_fib[t];
+					if (f->state == F_UNUSED || f->state == F_FINISHED) continue;
+					wl += (size_t) snprintf (who + wl, sizeof (who) - wl, " T%d:state=%d,dl=%ld,api=%s", t, (int) f->state, (long) (f->deadline == kNoDeadline ? -1 : f->deadline - g_now), api_of (f));
+					if (wl >= sizeof (who)) break;
+				}
+				raise_verdict (RT_V_BUDGET, 0, "budget", "step budget exceeded; now=%ld clock_enabled=%d:%s", (long) g_now, (int) clock_enabled (), who);
+			}
 		}
 		int c = choose (cur_ok);
 		if (c == RT_CLOCK_ID) { clock_move (); continue; }
@@ -719,12 +730,17 @@ extern "C" void rt_yield (void) {
 	if (f->last_progress == g_progress) f->spin_yields++;
 	else { f->spin_yields = 1; f->last_progress = g_progress; }
 	// livelock: every enabled thread has yielded >= 8 times with no progress at all, and the clock cannot move
-	if (f->spin_yields >= 8 && !clock_enabled ()) {
+	if (f->spin_yields >= 8) {
 		bool all = true;
 		int en[RT_MAXT]; int n = collect_enabled (en);
 		for (int i = 0; i < n; i++) {
 			Fiber *o = &g_fib[en[i]];
 			if (!(o->spin_yields >= 8 && o->last_progress == g_progress)) { all = false; break; }
+		}
+		if (all && clock_enabled ()) {
+			// everybody who can run is spinning: only the passage of time can change anything
+			clock_move ();
+			all = false;
 		}
 		if (all) {
 			g_quiescent_livelock = true;
@@ -771,6 +787,7 @@ extern "C" void rt_thaw_all (void) {
 	g_cfg.freeze_at = -1;
 }
 
+extern "C" int rt_any_runnable (void) { int en[RT_MAXT]; return collect_enabled (en) > 0 || clock_enabled (); }
 extern "C" int rt_thread_finished (int tid) { return g_fib[tid].state == F_FINISHED || g_fib[tid].state == F_UNUSED; }
 extern "C" int rt_thread_blocked (int tid) {
 	Fiber *f = &g_fib[tid];
@@ -876,6 +893,7 @@ extern "C" int sim_clock_gettime (int, struct timespec *ts) {
 	return 0;
 }
 
+static int g_tracing = -1;
 // ---------------------------------------------------------------- native semaphores
 struct NSem { int32_t count; int32_t magic; };
 
@@ -905,6 +923,7 @@ extern "C" int rt_nsem_p_deadline (void *s, int64_t sec, int64_t nsec, int no_de
 	NSem *n = (NSem *) s;
 	Fiber *f = g_cur;
 	int64_t dl = no_deadline ? kNoDeadline : to_ns (sec, nsec);
+	if (g_tracing > 0) fprintf (stderr, "[%6lu] T%d sem_p_deadline %p count=%d dl=%ld now=%ld nodl=%d\n", (unsigned long) g_st.steps, curtid (), s, n->count, (long) dl, (long) g_now, no_deadline);
 	if (f == NULL) { if (n->count > 0) { n->count--; return 0; } if (dl <= g_now) return ETIMEDOUT; raise_verdict (RT_V_DEADLOCK, 0, "main-blocked", "main context would block on a semaphore"); }
 	f->touched_blocking = true;
 	sched_point ();
@@ -939,7 +958,12 @@ extern "C" long sim_syscall (long nr, ...) {
 	int cmd = op & FUTEX_CMD_MASK;
 	Fiber *f = g_cur;
 	if (cmd == FUTEX_WAIT_BITSET || cmd == FUTEX_WAIT) {
-		if (f == NULL) raise_verdict (RT_V_DEADLOCK, 0, "main-blocked", "main context would block on a futex");
+		if (f == NULL) {
+			// main context (setup / finish): only the non-blocking outcomes are possible
+			if (*(volatile int *) uaddr != val) { errno = EAGAIN; return -1; }
+			if (ts != NULL && to_ns (ts->tv_sec, ts->tv_nsec) <= g_now) { errno = ETIMEDOUT; return -1; }
+			raise_verdict (RT_V_DEADLOCK, 0, "main-blocked", "main context would block on a futex");
+		}
 		f->touched_blocking = true;
 		sched_point ();
 		life_check ((uintptr_t) uaddr, pc, false);
@@ -979,13 +1003,23 @@ extern "C" long sim_syscall (long nr, ...) {
 // ---------------------------------------------------------------- allocator
 extern "C" void *sim_malloc (size_t n, const char *file, int line) {
 	g_st.allocs++;
-	if (g_cfg.alloc_fail_k > 0) {
+	{
 		bool match = true;
 		if (g_cfg.alloc_fail_file != NULL) {
-			size_t lf = strlen (file), lw = strlen (g_cfg.alloc_fail_file);
-			match = lf >= lw && strcmp (file + lf - lw, g_cfg.alloc_fail_file) == 0;
+			match = false;
+			size_t lf = strlen (file);
+			const char *p = g_cfg.alloc_fail_file;
+			while (*p) {
+				const char *q = strchr (p, '|');
+				size_t lw = q ? (size_t) (q - p) : strlen (p);
+				if (lf >= lw && strncmp (file + lf - lw, p, lw) == 0) match = true;
+				p += lw; if (*p == '|') p++;
+			}
 		}
-		if (match && ++g_alloc_count_matching == g_cfg.alloc_fail_k) { g_st.alloc_failed++; return NULL; }
+		if (match) {
+			g_st.allocs_matching++;
+			if (g_cfg.alloc_fail_k > 0 && ++g_alloc_count_matching == g_cfg.alloc_fail_k) { g_st.alloc_failed++; return NULL; }
+		}
 	}
 	size_t need = (n + 15) & ~(size_t) 15;
 	if (need == 0) need = 16;
@@ -1109,7 +1143,6 @@ void __tsan_vptr_read (void **) {}
 void __tsan_read_range (void *a, unsigned long n) { for (unsigned long o = 0; o < n; o += 4) plain_access ((uintptr_t) a + o, 4, false, PC ()); }
 void __tsan_write_range (void *a, unsigned long n) { for (unsigned long o = 0; o < n; o += 4) plain_access ((uintptr_t) a + o, 4, true, PC ()); }
 
-static int g_tracing = -1;
 static inline void trace_atomic (const char *op, uintptr_t addr, uintptr_t pc, uint32_t oldv, uint32_t newv, int mo) {
 	if (g_tracing < 0) g_tracing = getenv ("SIMRT_TRACE") != NULL;
 	if (!g_tracing) return;
